@@ -925,4 +925,204 @@ theorem placeNodes_ok_vinv (S : Schema) (hdet : DetS S) (hf : FillersOK S) (hw :
     have := inv.sz
     omega
 
+/-! ### the whole iteration, the loop -/
+
+theorem dropNode_ok' (S : Schema) (D : Nat) (st : FitState) (inv : FitLoopInv S D st) :
+    ∃ st', dropNode st = .ok st' ∧ FitLoopInv S D st' ∧ st'.frontier = st.frontier ∧ st'.placed = st.placed ∧
+      ∀ n ∈ st'.unplaced.content, n ∈ st.unplaced.content := by
+  unfold dropNode
+  simp only [inv.os0, contentAt, bind, Except.bind, pure, Except.pure, Nat.lt_irrefl, decide_false,
+    Bool.and_false, Bool.false_eq_true, if_false, dropFromFragment]
+  refine ⟨_, rfl, ⟨inv.frok, inv.ne, inv.sp, ?_, ?_, rfl, inv.oe0, inv.sz⟩, rfl, rfl,
+    fun n hn => List.mem_of_mem_drop hn⟩
+  · intro n hn
+    exact inv.leaf n (List.mem_of_mem_drop hn)
+  · intro n hn
+    exact inv.tys n (List.mem_of_mem_drop hn)
+
+theorem fitStep_ok_vinv (S : Schema) (hdet : DetS S) (hf : FillersOK S) (hw : WrapOK S) (hlab : LabelsOK S)
+    (hleaf : PM.FromDom.LeafOk S) (hts : TextStableP S) (hcl : Closable S) (D g : Nat)
+    (st : FitState) (inv : FitLoopInv S D st) (hv : VInv S D g st.frontier st.placed)
+    (hu : ∀ n ∈ st.unplaced.content, S.checkNode n = true) :
+    ∃ st' g', fitStep S st = .ok st' ∧ FitLoopInv S D st' ∧ VInv S D g' st'.frontier st'.placed ∧
+      (∀ n ∈ st'.unplaced.content, S.checkNode n = true) := by
+  obtain ⟨r, hr⟩ := findFittable_ok S hdet hf D st inv
+  unfold fitStep
+  rw [FM.bind_eq hr]
+  cases r with
+  | some f =>
+    obtain ⟨st', h1, h2, h3, h4⟩ := placeNodes_ok_vinv S hdet hf hw hlab hleaf hts hcl D g st inv hv hu f hr
+    exact ⟨st', _, h1, h2, h3, fun n hn => hu n (h4 n hn)⟩
+  | none =>
+    simp only
+    rw [FM.bind_eq (openMore_none S D st inv)]
+    obtain ⟨st', h1, h2, h3, h4, h5⟩ := dropNode_ok' S D st inv
+    exact ⟨st', g, h1, h2, by rw [h3, h4]; exact hv, fun n hn => hu n (h5 n hn)⟩
+
+theorem fitLoop_ok_vinv (S : Schema) (hdet : DetS S) (hf : FillersOK S) (hw : WrapOK S) (hlab : LabelsOK S)
+    (hleaf : PM.FromDom.LeafOk S) (hts : TextStableP S) (hcl : Closable S) (D : Nat) :
+    ∀ (fuel g : Nat) (st : FitState), FitLoopInv S D st → VInv S D g st.frontier st.placed →
+      (∀ n ∈ st.unplaced.content, S.checkNode n = true) → fitMeasure st.unplaced (cpot S st) < fuel →
+      ∃ st' g', fitLoop S fuel st = .ok st' ∧ FitLoopInv S D st' ∧ VInv S D g' st'.frontier st'.placed
+  | 0, g, st, _, _, _, h => by omega
+  | fuel + 1, g, st, inv, hv, hu, hm => by
+    unfold fitLoop
+    cases hsz : (st.unplaced.size == 0) with
+    | true => exact ⟨st, g, rfl, inv, hv⟩
+    | false =>
+      simp only [Bool.false_eq_true, if_false]
+      obtain ⟨st1, g1, h1, inv1, hv1, hu1⟩ := fitStep_ok_vinv S hdet hf hw hlab hleaf hts hcl D g st inv hv hu
+      rw [FM.bind_eq h1]
+      have hne : st.unplaced.content ≠ [] := by
+        intro h0
+        unfold Slice.size at hsz
+        rw [h0, inv.os0, inv.oe0] at hsz
+        simp [fsize] at hsz
+      have hlt := fitStep_progress S hdet st st1 hne h1
+      exact fitLoop_ok_vinv S hdet hf hw hlab hleaf hts hcl D fuel g1 st1 inv1 hv1 hu1 (by omega)
+
+/-! ### where `close` continues from lies at the close level's depth -/
+
+theorem balance_cl_run : ∀ (n : Nat) (l : List Tok), (∀ j, j < n → l[j]? = some Tok.cl) →
+    balance (l.take n) = -(n : Int)
+  | 0, l, _ => by simp [balance]
+  | n + 1, l, h => by
+    cases l with
+    | nil => have := h 0 (by omega); simp at this
+    | cons x l' =>
+      have h0 := h 0 (by omega)
+      simp only [List.getElem?_cons_zero, Option.some.injEq] at h0
+      subst h0
+      have ih := balance_cl_run n l' (fun j hj => by
+        have := h (j + 1) (by omega)
+        simpa using this)
+      simp only [List.take_succ_cons, balance_cons, ih, Tok.delta]
+      omega
+
+theorem resolve_after_depth {doc : Node} {t : Nat} {rt : RPos} (ht : doc.resolve t = some rt) (i : Nat)
+    (hi : i < rt.depth) (hend : rt.end_ (i + 1) = rt.pos + (rt.depth - (i + 1))) (a : Nat)
+    (ha : rt.after (i + 1) = some a) (mv : RPos) (hmv : doc.resolve a = some mv) : mv.depth = i := by
+  have R := resolve_resolved ht
+  have Rm := resolve_resolved hmv
+  rw [R.after_eq (i + 1) (by omega) (by omega)] at ha
+  simp only [Option.some.injEq] at ha
+  rw [R.pos_eq] at hend
+  have hat : a = t + (rt.depth - i) := by omega
+  have h1 := depthAt_balance doc.kids a Rm.le
+  have h2 := depthAt_balance doc.kids t R.le
+  rw [← Rm.depth_eq] at h1
+  rw [← R.depth_eq] at h2
+  have hsplit : (ftoks doc.kids).take a = (ftoks doc.kids).take t ++ ((ftoks doc.kids).drop t).take (rt.depth - i) := by
+    rw [hat, List.take_add]
+  have hrun := balance_cl_run (rt.depth - i) ((ftoks doc.kids).drop t) (fun j hj => by
+    rw [List.getElem?_drop]
+    exact R.close_run_after ht (i + 1) (by omega) (by omega) hend (t + j) (by omega) (by omega))
+  rw [hsplit, balance_append, hrun, ← h2] at h1
+  omega
+
+theorem findCloseLevelLoop_move_depth (S : Schema) {doc : Node} {t : Nat} {rt : RPos}
+    (ht : doc.resolve t = some rt) (fr : List FItem) :
+    ∀ (n : Nat) (lv : CloseLevel), n ≤ rt.depth + 1 → findCloseLevelLoop S doc rt fr n = .ok (some lv) →
+      lv.depth ≤ lv.move.depth
+  | 0, lv, _, h => by simp [findCloseLevelLoop, pure, Except.pure] at h
+  | i + 1, lv, hn, h => by
+    unfold findCloseLevelLoop at h
+    obtain ⟨it, _, h⟩ := FM.bind_ok h
+    simp only at h
+    obtain ⟨r, _, h⟩ := FM.bind_ok h
+    cases r with
+    | none => exact findCloseLevelLoop_move_depth S ht fr i lv (by omega) h
+    | some fit =>
+      simp only at h
+      obtain ⟨b, _, h⟩ := FM.bind_ok h
+      cases b with
+      | false => exact findCloseLevelLoop_move_depth S ht fr i lv (by omega) h
+      | true =>
+        simp only [if_true] at h
+        obtain ⟨mv, hmv, h⟩ := FM.bind_ok h
+        have := pure_ok h
+        simp only [Option.some.injEq] at this
+        subst this
+        simp only
+        rcases closeMove_spec doc rt i _ mv hmv with ⟨_, rfl⟩ | ⟨hb, a, ha, hres⟩
+        · omega
+        · simp only [Bool.and_eq_true, decide_eq_true_eq, beq_iff_eq] at hb
+          have := resolve_after_depth ht i hb.1 hb.2 a ha mv hres
+          omega
+
+/-! ### `close` from a state satisfying the invariant -/
+
+theorem closeFit_vinv (S : Schema) (hdet : DetS S) (hf : FillersOK S) (hleaf : PM.FromDom.LeafOk S)
+    (hts : TextStableP S) (hcl : Closable S) {doc : Node} {t : Nat} {rt : RPos}
+    (ht : doc.resolve t = some rt) (hattrs : S.nodeAttrsOK doc = true) (fr : List FItem) (placed : List Node)
+    (D g : Nat) (hfr : FrOK fr) (hsp : rspineOK (fr.length - 1) placed) (hv : VInv S D g fr placed)
+    (mv : RPos) (p : List Node) (h : closeFit S doc rt fr placed = .ok (some (mv, p))) :
+    openValid S D mv.depth p = true := by
+  have hlen1 : 1 ≤ fr.length := by have := hv.2.1; omega
+  unfold closeFit at h
+  obtain ⟨lvo, hlv, h⟩ := FM.bind_ok h
+  cases lvo with
+  | none => simp [pure, Except.pure] at h
+  | some lv =>
+    simp only at h
+    have hdep : lv.depth < min (fr.length - 1) rt.depth + 1 := findCloseLevelLoop_depth S doc rt fr _ lv hlv
+    have hmd : lv.depth ≤ lv.move.depth :=
+      findCloseLevelLoop_move_depth S ht fr (min (fr.length - 1) rt.depth + 1) lv (by omega) hlv
+    obtain ⟨c1, hc1, h⟩ := FM.bind_ok h
+    obtain ⟨c1', hc1', hc1f, hc1s⟩ := closeMany_ok S hdet hf (fr.length - 1 - lv.depth) fr placed hfr (by omega) hsp
+    have hcc : c1' = c1 := by rw [hc1'] at hc1; exact Except.ok.inj hc1
+    subst hcc
+    have hc1len : c1'.1.length = lv.depth + 1 := by
+      rw [hc1f, List.length_take]
+      omega
+    have hv1 := closeMany_vinv S hdet hf hleaf hts hcl D _ g fr placed (by omega) hfr hsp hv c1' hc1
+    rw [show fr.length - 1 - (fr.length - 1 - lv.depth) = lv.depth by omega] at hv1
+    obtain ⟨hg1D, hg1l, G1, hp1, hr1⟩ := hv1
+    have hr1' := ValR_mono S (L' := LevelT) (fun _ _ _ _ => trivial) _ _ _ _ hr1
+    obtain ⟨pl, hpl, h⟩ := FM.bind_ok h
+    have hfit := findCloseLevelLoop_fit_valid S hdet hleaf doc rt fr _ lv hlv
+    have hg1 : min g lv.depth ≤ lv.depth := Nat.min_le_right _ _
+    have hpl' : ∃ G2, PureV S (min g lv.depth) pl G2 ∧
+        ValR S LevelT false (D - min g lv.depth) (c1'.1.drop (min g lv.depth)) G2 := by
+      split at hpl
+      · obtain ⟨pre, top, hpt⟩ : ∃ pre top, c1'.1 = pre ++ [top] := by
+          have : c1'.1 ≠ [] := by intro h0; rw [h0] at hc1len; simp at hc1len
+          exact ⟨c1'.1.dropLast, c1'.1.getLast this, (List.dropLast_concat_getLast this).symm⟩
+        have hprelen : pre.length = lv.depth := by rw [hpt] at hc1len; simpa using hc1len
+        obtain ⟨G2, hG2, hp2⟩ := addToFragment_pure S (min g lv.depth) (lv.depth - min g lv.depth) c1'.2 G1 lv.fit pl hp1
+          (by rw [show min g lv.depth + (lv.depth - min g lv.depth) = lv.depth by omega]; exact hpl)
+        refine ⟨G2, hp2, ?_⟩
+        rw [hpt, List.drop_append_of_le_length (by omega)] at hr1' ⊢
+        have := ValR_top S LevelT LevelT_lastStable lv.fit top [top] (fun x hx => by simp at hx; rw [← hx]) (by simp)
+          (pre.drop (min g lv.depth)) false (D - min g lv.depth) G1 G2
+          (by rw [List.length_drop, hprelen]; exact hG2) hr1'
+          (fun mk' x' F0 hF0 => ⟨leftOpenValid_fappend S x' F0 lv.fit hF0.1 hfit, trivial⟩)
+        exact this
+      · have := pure_ok hpl
+        subst this
+        exact ⟨G1, hp1, hr1'⟩
+    obtain ⟨G2, hp2, hr2⟩ := hpl'
+    have hdl : (c1'.1.drop (min g lv.depth)).length = lv.depth - min g lv.depth + 1 := by
+      rw [List.length_drop, hc1len]; omega
+    have hov := ValR_openValid S LevelT _ false _ G2 (by intro h0; rw [h0] at hdl; simp at hdl) hr2
+    rw [hdl, Nat.add_sub_cancel] at hov
+    obtain ⟨c2, hc2, h⟩ := FM.bind_ok h
+    have := pure_ok h
+    simp only [Option.some.injEq, Prod.mk.injEq] at this
+    obtain ⟨e1, e2⟩ := this
+    subst e1; subst e2
+    have hmv : ∃ pm, doc.resolve pm = some lv.move := by
+      rcases findCloseLevelLoop_move S doc rt fr _ lv hlv with hm | ⟨i, a, _, _, _, hres⟩
+      · exact ⟨t, by rw [hm]; exact ht⟩
+      · exact ⟨a, hres⟩
+    obtain ⟨pm, hpm⟩ := hmv
+    obtain ⟨G3, hp3, hG3⟩ := reopen_pureV S hdet hleaf hpm hattrs (lv.move.depth - lv.depth) (lv.depth + 1) c1'.1 pl
+      (min g lv.depth) (lv.depth - min g lv.depth) (D - min g lv.depth) G2 (by rw [hc1len]; omega) hp2 hov (by omega)
+      (fun k h1 h2 => by omega) c2 hc2
+    have := PureV_openValid S (min g lv.depth) (D - min g lv.depth)
+      (lv.depth - min g lv.depth + (lv.move.depth - lv.depth)) c2.2 G3 hp3 hG3
+    rw [show min g lv.depth + (D - min g lv.depth) = D by omega,
+      show min g lv.depth + (lv.depth - min g lv.depth + (lv.move.depth - lv.depth)) = lv.move.depth by omega] at this
+    exact this
+
 end PM
